@@ -181,6 +181,7 @@ func buildProperties() []Property {
 			NotDecided: "source order, multifile/discontiguous semantics, effects of directives executed during a load that later fails (by design they run at once).",
 			Rules: []RuleDef{
 				{"R-DISCONTIGUOUS-INDEP", 1, ruleDiscontiguousIndep},
+				{"R-FLAG-LIVE", 1, ruleFlagLive},
 				{"R-MORE-CLEAN-END", 1, ruleMoreCleanEnd},
 				{"R-COMMIT-AFTER-SUCCESS", 3, ruleCommitAfterSuccess},
 				{"R-STAGING-LOCAL", 1, ruleStagingLocal},
